@@ -315,14 +315,23 @@ class Engine(EngineBase, Generic[VarType]):
                 names_out, args_out, self, net, parameters, other_parameters, compact
             )
 
-        # create dynamics function
+        # create dynamics function (CasADi's common subexpression elimination identifies
+        # symbols by name, so it is only safe when no two input symbols share a name,
+        # e.g., because two elements were given the same name)
+        symbols = [
+            sym
+            for arg in args_in
+            if isinstance(arg, (cs.SX, cs.MX))  # e.g., an empty group is a DM
+            for sym in cs.symvar(arg)
+        ]
+        cse = len({sym.name() for sym in symbols}) == len(symbols)
         return cs.Function(
             "F",
             args_in,
             args_out,
             names_in,
             names_out,
-            {"allow_duplicate_io_names": True, "cse": True},
+            {"allow_duplicate_io_names": True, "cse": cse},
         )
 
     def __str__(self) -> str:
